@@ -78,9 +78,14 @@ func (m *Model) PullDemand(ctx context.Context, opts ...resource.ReadOption) <-c
 		defer close(send)
 		for change := range recv {
 			demand := change.Value.(*traits.ElectricDemand)
-			send <- PullDemandChange{
+			select {
+			case <-ctx.Done():
+				// the subscriber may have stopped receiving: do not wait for it once it has cancelled
+				return
+			case send <- PullDemandChange{
 				Value:      demand,
 				ChangeTime: change.ChangeTime,
+			}:
 			}
 		}
 	}()
@@ -121,9 +126,14 @@ func (m *Model) PullActiveMode(ctx context.Context, opts ...resource.ReadOption)
 		defer close(send)
 		for change := range recv {
 			activeMode := change.Value.(*traits.ElectricMode)
-			send <- PullActiveModeChange{
+			select {
+			case <-ctx.Done():
+				// the subscriber may have stopped receiving: do not wait for it once it has cancelled
+				return
+			case send <- PullActiveModeChange{
 				ActiveMode: activeMode,
 				ChangeTime: change.ChangeTime,
+			}:
 			}
 		}
 	}()
@@ -354,7 +364,8 @@ func (m *Model) PullModes(ctx context.Context, opts ...resource.ReadOption) <-ch
 
 	go func() {
 		defer close(send)
-		// no need to listen to ctx.Done, as modes.Pull does that.
+		// modes.Pull closes recv when ctx is done; the hand-over below has to look at ctx itself: the subscriber may
+		// have stopped receiving before it cancelled
 		for change := range recv {
 			var newValue, oldValue *traits.ElectricMode
 			if change.NewValue != nil {
@@ -370,7 +381,11 @@ func (m *Model) PullModes(ctx context.Context, opts ...resource.ReadOption) <-ch
 				NewValue:   newValue,
 				OldValue:   oldValue,
 			}
-			send <- pullChange
+			select {
+			case <-ctx.Done():
+				return
+			case send <- pullChange:
+			}
 		}
 	}()
 
